@@ -89,6 +89,9 @@ def leg_text(run, quick):
         cfg = cfgpath('Pattern_text.cfg')
         e = tlc.run_tlc(T, cfg, workers=1)
         emits = tlc.pick(e.emits, 6000, run.seed)
+        # the shortest texts ('', '/', 'a', '//', ...) are always included
+        short = dict((render_text(r_['tp']), r_) for r_ in e.emits if len(render_text(r_['tp'])) <= 2)
+        emits = emits + [short[k_] for k_ in sorted(short)]
     else:
         e = tlc.run_tlc(T, cfgpath('Pattern_text.cfg'), workers=1)
         emits = e.emits
@@ -96,9 +99,7 @@ def leg_text(run, quick):
     n = 0
     for rec in emits:
         tp = rec['tp']
-        s = render_text(tp)
-        if not s:
-            continue
+        s = render_text(tp)          # (may be the empty string: a pattern without a leading slash like any other)
         # a rendering artefact: an "empty" last part followed by the trail slash is "//" as intended;
         # an "empty" FIRST part after the leading slash is "//" as well
         try:
